@@ -133,6 +133,9 @@ func CmdCheck(args []string) int {
 			vcs = append(vcs, e.VerifyLemma(li))
 		}
 	}
+	if wv := e.VerifyWires(*prop); wv != nil {
+		vcs = append(vcs, wv)
+	}
 	stats := &SolveStats{}
 	sem := make(chan struct{}, 16)
 	var wg sync.WaitGroup
